@@ -234,5 +234,10 @@ Definition spec_sample (chans : list (option chan_cfg)) (markers : list (option 
   | ORet (_, lens) => all_ok (map (spec_sample_one chans markers) (combine wfs lens))
   end.
 
+(* an entry without waveforms holds no samples *)
+Definition spec_entry (chans : list (option chan_cfg)) (markers : list (option Z)) (rate : Q) (wfs : list wf_obs)
+  : outcome (list sampled) :=
+  match wfs with [] => ORet [] | _ => spec_sample chans markers rate wfs end.
+
 Definition sampled_eqb (a b : sampled) : bool :=
   list_eqb (opt_eqb Qlist_eqb) (fst a) (fst b) && list_eqb (opt_eqb (list_eqb Bool.eqb)) (snd a) (snd b).
